@@ -71,27 +71,33 @@ func ruleRevOrder(c *Ctx) []Obligation {
 		obs = append(obs, bad(R, con, c.Pos(fm.Pos()), "fewer than two map lookups before the disk read"))
 	case isRevKey(first.Index) && !isRevKey(second.Index) && dominates(first, second):
 		// each must return when found
-		ret := func(l *ssa.Lookup) bool {
+		// the value found by a lookup (the lookup itself, or the first component of a comma-ok lookup)
+		// is returned before any later lookup or disk read is made
+		ret := func(l *ssa.Lookup, later ...ssa.Instruction) bool {
+			vals := map[ssa.Value]bool{l: true}
 			for _, r := range *l.Referrers() {
-				if bo, okb := r.(*ssa.BinOp); okb {
-					if _, isEq, okn := nilTest(bo); okn {
-						for _, rr := range *bo.Referrers() {
-							if ifi, oki := rr.(*ssa.If); oki {
-								s := ifi.Block().Succs[0]
-								if isEq {
-									s = ifi.Block().Succs[1]
-								}
-								if rt := terminalReturn(s); rt != nil && len(rt.Results) == 1 && rt.Results[0] == ssa.Value(l) {
-									return true
-								}
-							}
-						}
+				if ex, isE := r.(*ssa.Extract); isE && ex.Index == 0 {
+					vals[ex] = true
+				}
+			}
+			for _, blk := range fm.Blocks {
+				rt, isR := blk.Instrs[len(blk.Instrs)-1].(*ssa.Return)
+				if !isR || len(rt.Results) != 1 || !vals[rt.Results[0]] {
+					continue
+				}
+				early := true
+				for _, x := range later {
+					if dominates(x, rt) {
+						early = false
 					}
+				}
+				if early {
+					return true
 				}
 			}
 			return false
 		}
-		if ret(first) && ret(second) {
+		if ret(first, second, reads[0]) && ret(second, reads[0]) {
 			obs = append(obs, ok(R, con, c.InstrPos(first), "m[name@rev] → return; m[name] → return; then Read"))
 		} else {
 			obs = append(obs, bad(R, con, c.InstrPos(first), "a found module is not returned at once"))
@@ -575,6 +581,49 @@ func ruleScopeLex(c *Ctx) []Obligation {
 		obs = append(obs, ok(R, con, c.Pos(fe.Pos()), "root := FindModuleByPrefix(n, prefix); every lookup is in root (or root's includes)"))
 	} else {
 		obs = append(obs, bad(R, con, "-", "the external lookup searches somewhere other than the module imported under the prefix"))
+	}
+	// own prefix: a name written with the module's own prefix is a local name and must take the
+	// lexical route, so the external lookup is reached only when the prefix differs from it.
+	con = "a name carrying the module's own prefix is resolved lexically, like an unprefixed one"
+	if fe != nil {
+		sites := c.callsTo(res, fe)
+		for _, ci := range sites {
+			pfx := ci.Common().Args[2]
+			guarded := false
+			for _, g := range guardsAt(ci.Block()) {
+				bo, isB := binop(g.Cond, token.EQL, token.NEQ)
+				if !isB {
+					continue
+				}
+				var other ssa.Value
+				switch {
+				case bo.X == pfx:
+					other = bo.Y
+				case bo.Y == pfx:
+					other = bo.X
+				default:
+					continue
+				}
+				if _, isK := other.(*ssa.Const); isK {
+					continue
+				}
+				differs := (bo.Op == token.EQL) != g.Branch
+				if differs && derivesFrom(other, func(x ssa.Value) bool {
+					call, isC := x.(*ssa.Call)
+					return isC && (invokeName(call) == "GetPrefix" || strings.Contains(strings.ToLower(calleeName(call)), "prefix"))
+				}) {
+					guarded = true
+				}
+			}
+			if guarded {
+				obs = append(obs, ok(R, con, c.InstrPos(ci), "findExternal is reached only where prefix != the root's own prefix"))
+			} else {
+				obs = append(obs, bad(R, con, c.InstrPos(ci), "the external (module-level) lookup is reached for the module's own prefix too: an own-prefixed reference no longer sees typedefs of enclosing containers, lists, groupings or rpc bodies, and no longer honours shadowing"))
+			}
+		}
+		if len(sites) == 0 {
+			obs = append(obs, undecided(R, con, c.Pos(res.Pos()), "resolve no longer calls findExternal: the routing of prefixed names could not be identified"))
+		}
 	}
 	return obs
 }
